@@ -70,3 +70,29 @@ Fixpoint index_of (s : String.string) (l : list String.string) (i : nat) : optio
   end.
 Definition term_id (s : String.string) : nat :=
   match index_of s term_names 0 with Some i => i | None => n_terms end.
+
+(* productions by content (lhs name, rhs symbol names): 999 when the grammar has no such rule *)
+Definition nt_id (s : String.string) : nat :=
+  match index_of s nonterm_names 0 with Some i => i | None => 999 end.
+
+Definition sym_of (s : String.string) : symbol :=
+  match index_of s term_names 0 with
+  | Some i => T i
+  | None => NT (nt_id s)
+  end.
+
+Fixpoint syms_eqb (a b : list symbol) : bool :=
+  match a, b with
+  | [], [] => true
+  | x :: a', y :: b' => symbol_eqb x y && syms_eqb a' b'
+  | _, _ => false
+  end.
+
+Fixpoint find_prod_in (lhs : nat) (rhs : list symbol) (g : LR.grammar) (i : nat) : nat :=
+  match g with
+  | [] => 999
+  | (l, r) :: g' => if Nat.eqb l lhs && syms_eqb r rhs then i else find_prod_in lhs rhs g' (S i)
+  end.
+
+Definition P (lhs : String.string) (rhs : list String.string) : nat :=
+  find_prod_in (nt_id lhs) (map sym_of rhs) grammar 0.
